@@ -111,6 +111,7 @@ type P4 struct {
 	Memo string `gorm:"not null;default:''"`
 	Kind string `gorm:"size:8;check:chk_kind,kind IN ('bug','task','story')"` // named check with commas
 	Pts  int64  `gorm:"check:chk_pts,coalesce(pts,0) >= 0"`
+	Nk   string `gorm:"column:nick_name;size:20"`
 }
 type P4v2 struct {
 	ID    uint   `gorm:"primaryKey"`
@@ -120,6 +121,7 @@ type P4v2 struct {
 	Kind  string `gorm:"size:8;check:chk_kind,kind IN ('bug','task','story')"`
 	Pts   int64  `gorm:"check:chk_pts,coalesce(pts,0) >= 0"`
 	Sev   string `gorm:"size:4;check:chk_sev,sev IN ('lo','hi','no')"`
+	Nk    string `gorm:"column:nick_name;size:20;unique"` // unique added in v2 to a column with a name override
 	Price int64  `gorm:"check:price_pos,price > -1;default:1"`
 	Extra string `gorm:"index:idx_p4_extra,unique"`
 }
@@ -432,12 +434,16 @@ type P14 struct {
 	NP int64   `gorm:"default:+5"`
 	NH int64   `gorm:"default:0x10"`
 	F2 float64 `gorm:"default:1.50"`
+	FS float64 `gorm:"default:0.00005"`
+	FL float64 `gorm:"default:1000000000000000000000"`
 }
 type P14v2 struct {
 	ID uint    `gorm:"primaryKey"`
 	NP int64   `gorm:"default:+5"`
 	NH int64   `gorm:"default:0x10"`
 	F2 float64 `gorm:"default:1.50"`
+	FS float64 `gorm:"default:0.00005"`
+	FL float64 `gorm:"default:1000000000000000000000"`
 	X  int64
 }
 
@@ -453,6 +459,8 @@ type P15 struct {
 	E  int64  `gorm:"not null; index:idx_p15_de,priority:2"`
 	F  string `gorm:"size:12; unique; column:f_col"`
 	G  int64  `gorm:"check:chk_p15_g,g >= 0; default:1"`
+	Em string `gorm:"size:30;index:idx_p15_em"`
+	Lg string `gorm:"size:30"`
 }
 type P15v2 struct {
 	ID uint   `gorm:"primaryKey"`
@@ -463,12 +471,28 @@ type P15v2 struct {
 	E  int64  `gorm:"not null; index:idx_p15_de,priority:2"`
 	F  string `gorm:"size:12; unique; column:f_col"`
 	G  int64  `gorm:"check:chk_p15_g,g >= 0; default:1"`
+	Em string `gorm:"size:30;index:idx_p15_em"`
+	Lg string `gorm:"size:30;uniqueIndex:em"` // an index explicitly named like the column of an earlier indexed field
 	H  string `gorm:"size:16; uniqueIndex:idx_p15_h"`
 	I  int64  `gorm:"default:0; index"`
 	J  string `gorm:"size:8; not null; default:'j'; index:idx_p15_j"`
 }
 
 func (P15v2) TableName() string { return "p15" }
+
+// ---- P16 (known finding, corpus only): a float default written in exponent notation whose
+// plain decimal form differs from both the tag text and fmt.Sprint of the value ----
+type P16 struct {
+	ID uint    `gorm:"primaryKey"`
+	FE float64 `gorm:"default:2.5e-07"`
+}
+type P16v2 struct {
+	ID uint    `gorm:"primaryKey"`
+	FE float64 `gorm:"default:2.5e-07"`
+	X  int64
+}
+
+func (P16v2) TableName() string { return "p16" }
 
 // ---- reorder family: chain and diamond of belongs-to dependencies ----
 type RA struct {
